@@ -140,7 +140,16 @@ inline Py_ALWAYS_INLINE T DictGetItemAs(const py::handle& dict, const py::handle
     }
     return py::reinterpret_steal<T>(value);
 #else
-    return py::reinterpret_borrow<T>(PyDict_GetItem(dict.ptr(), key.ptr()));
+    // NOTE: `PyDict_GetItem()` suppresses all errors (e.g., raised by the key's `__hash__()` or
+    // `__eq__()` methods) and returns NULL if the key is missing. Use the checked variant instead.
+    PyObject* const value = PyDict_GetItemWithError(dict.ptr(), key.ptr());
+    if (value == nullptr) [[unlikely]] {
+        if (PyErr_Occurred() == nullptr) [[likely]] {
+            py::set_error(PyExc_KeyError, py::make_tuple(key));
+        }
+        throw py::error_already_set();
+    }
+    return py::reinterpret_borrow<T>(value);
 #endif
 }
 inline Py_ALWAYS_INLINE py::object DictGetItem(const py::handle& dict, const py::handle& key) {
